@@ -499,6 +499,8 @@ def driver(seed, count):
             f = rng.choice(['FACT', 'FACTDOUBLE'])
             r = rng.random()
             x = dint(rng.randint(-3, 175)) if r < 0.7 else mkdec(rng.random() < 0.2, rdigits(rng, 3), rng.choice([-1, -2]))
+            if r > 0.85:       # strictly between -1 and 0 (truncation gives 0, the argument is negative all the same), and just above 0
+                x = mkdec(rng.random() < 0.7, rdigits(rng, rng.choice([1, 2, 3])), rng.choice([-3, -4, -10, -16]))
             emit(f, [x])
         elif k < 0.83:
             emit('ATAN2', [rng.choice([dint(0), rnumber(rng)]) if rng.random() < 0.3 else rnumber(rng, wide=False),
@@ -506,6 +508,22 @@ def driver(seed, count):
         elif k < 0.87:
             x = rnumber(rng) if rng.random() < 0.8 else rng.choice([dint(0), dint(1), dint(-1), dint(10), dint(8)])
             b = rng.choice([dint(2), dint(10), dint(1), dint(0), dint(-2), mkdec(False, [5], -1), dint(3), rnumber(rng, wide=False, maxdig=3), x])
+            if rng.random() < 0.35:     # a hair away from a whole power of the base; a base a hair away from 1
+                b = rng.choice([dint(2), dint(10), dint(5), dint(3)])
+                k = rng.choice([-3, -2, -1, 1, 2, 3, 4, 6, 9])
+                bb = decimal.Decimal(dec_str(b))
+                with decimal.localcontext() as ctx:
+                    ctx.prec = 15
+                    xx = (bb ** k) * (1 + rng.choice([1, -1]) * decimal.Decimal(10) ** -rng.choice([9, 10, 11, 12, 13]))
+                    xx = +xx
+                x = float_dec(float(xx))
+                if rng.random() < 0.15:
+                    x, b = rng.choice([dint(2), dint(7), rnumber(rng, wide=False, maxdig=3)]), mkdec(False, [1] + [0] * rng.choice([8, 9, 11]) + [1], -rng.choice([9, 10, 12]))
+                    b = mkdec(False, b['dg'], -(len(b['dg']) - 1))
+                    if x['neg']:
+                        x = dict(x, neg=False)
+                emit('LOG', [x] if dec_str(b) == '1E1' and rng.random() < 0.5 else [x, b])
+                continue
             emit('LOG', [x] if rng.random() < 0.3 else [x, b])
         else:
             f = rng.choice(ELEM)
